@@ -8,11 +8,16 @@ package main
 //	L                                       UpdateLenInHeader
 //	R                                       ResetSet
 //	O <obs> <seq> <time>                    observe (snapshot; C16 only)
+//	AS <1|2|X<k>> <id> <tag>                AddRecord* with the element objects of the <tag>-th A of the case (histories only)
+//	M <tag> <j> <kind> <value>              SetXxxValue(value) on element j of the <tag>-th A's objects (histories only)
+//	G                                       GetBuffer() on every record of the set (histories only)
 //
 // with <elem> = <id> <dtcode> <ent> <len> <kind> <value> as in elems.go / Driver/Show.v.
 
 import (
 	"fmt"
+	"math"
+	"net"
 	"strconv"
 	"strings"
 	"time"
@@ -21,8 +26,17 @@ import (
 	"github.com/vmware/go-ipfix/pkg/exporter"
 )
 
+// objCtx holds the element objects made by the A operations of a history, in order (one entry
+// per A; for a repeated add the objects of the last repetition).
+type objCtx struct {
+	pool [][]entities.InfoElementWithValue
+}
+
 type setOp struct {
-	kind  byte // P A L R O
+	kind  byte // P A L R O, S (AS) M G
+	tag   int
+	elemJ int
+	val   []string
 	ty    string
 	id    uint16
 	form  string // "1" "2" "X"
@@ -33,21 +47,25 @@ type setOp struct {
 }
 
 func elemTokLen(t []string) int {
-	// <id> <dt> <ent> <len> <kind> then: bytes-arg kinds take "nil" | "-" | "hex h" | "pat n s"
-	k := t[4]
-	switch k {
+	// <id> <dt> <ent> <len> then the value tokens
+	return 4 + valueTokLen(t[4:])
+}
+
+func valueTokLen(t []string) int {
+	// <kind> then: bytes-arg kinds take "nil" | "-" | "hex h" | "pat n s"
+	switch t[0] {
 	case "oct", "mac", "ip", "str":
-		switch t[5] {
+		switch t[1] {
 		case "nil", "-":
-			return 6
+			return 2
 		case "hex":
-			return 7
+			return 3
 		case "pat":
-			return 8
+			return 4
 		}
-		panic("bad bytes arg " + strings.Join(t[:6], " "))
+		panic("bad bytes arg " + strings.Join(t[:2], " "))
 	}
-	return 6
+	return 2
 }
 
 // parseSetOps parses ops until the token list ends or a ";" token; returns the rest after ";".
@@ -81,6 +99,23 @@ func parseSetOps(t []string) ([]setOp, []string) {
 				t = t[l:]
 			}
 			ops = append(ops, o)
+		case "AS":
+			o := setOp{kind: 'S', id: uint16(atou(t[2])), tag: atoi(t[3]), rep: 1}
+			if strings.HasPrefix(t[1], "X") {
+				o.form = "X"
+				o.extra = atoi(t[1][1:])
+			} else {
+				o.form = t[1]
+			}
+			ops = append(ops, o)
+			t = t[4:]
+		case "M":
+			l := valueTokLen(t[3:])
+			ops = append(ops, setOp{kind: 'M', tag: atoi(t[1]), elemJ: atoi(t[2]), val: t[3 : 3+l]})
+			t = t[3+l:]
+		case "G":
+			ops = append(ops, setOp{kind: 'G'})
+			t = t[1:]
 		case "L":
 			ops = append(ops, setOp{kind: 'L'})
 			t = t[1:]
@@ -144,9 +179,60 @@ func mkElems(specs [][]string) []entities.InfoElementWithValue {
 	return els
 }
 
+// setElem calls the setter of the value's kind on an element object (a setter of another kind
+// panics in the base implementation: recovered, nothing changes).
+func setElem(e entities.InfoElementWithValue, t []string) {
+	defer func() { recover() }()
+	switch t[0] {
+	case "oct":
+		b, _ := parseObytes(t[1:])
+		e.SetOctetArrayValue(b)
+	case "mac":
+		b, _ := parseObytes(t[1:])
+		e.SetMacAddressValue(net.HardwareAddr(b))
+	case "ip":
+		b, _ := parseObytes(t[1:])
+		e.SetIPAddressValue(net.IP(b))
+	case "str":
+		b, _ := ParseBytesArg(t[1:])
+		e.SetStringValue(string(b))
+	case "u8":
+		e.SetUnsigned8Value(uint8(atou(t[1])))
+	case "u16":
+		e.SetUnsigned16Value(uint16(atou(t[1])))
+	case "u32", "dts":
+		e.SetUnsigned32Value(uint32(atou(t[1])))
+	case "u64", "dtms":
+		e.SetUnsigned64Value(atou(t[1]))
+	case "i8":
+		e.SetSigned8Value(int8(atoz(t[1])))
+	case "i16":
+		e.SetSigned16Value(int16(atoz(t[1])))
+	case "i32":
+		e.SetSigned32Value(int32(atoz(t[1])))
+	case "i64":
+		e.SetSigned64Value(atoz(t[1]))
+	case "f32":
+		e.SetFloat32Value(math.Float32frombits(uint32(atou(t[1]))))
+	case "f64":
+		e.SetFloat64Value(math.Float64frombits(atou(t[1])))
+	case "bool":
+		e.SetBooleanValue(t[1] == "T")
+	default:
+		panic("bad kind " + t[0])
+	}
+}
+
 // applyOp runs one builder operation on s; forceForm (if non-empty) replaces the add form.
 // Returns "ok" / "err:<class>" / "panic" once per repetition, space separated.
-func applyOp(s entities.Set, o setOp, forceForm string) string {
+func applyOp(s entities.Set, o setOp, forceForm string) string { return applyOpCtx(nil, s, o, forceForm) }
+
+// applyOpCtx: the same within a history whose element objects can be shared and changed.
+func applyOpCtx(ctx *objCtx, s entities.Set, o setOp, forceForm string) string {
+	var lastEls []entities.InfoElementWithValue
+	if o.kind == 'A' && ctx != nil {
+		defer func() { ctx.pool = append(ctx.pool, lastEls) }()
+	}
 	one := func() (res string) {
 		defer func() {
 			if r := recover(); r != nil {
@@ -157,8 +243,28 @@ func applyOp(s entities.Set, o setOp, forceForm string) string {
 		switch o.kind {
 		case 'P':
 			err = s.PrepareSet(contentType(o.ty), o.id)
-		case 'A':
-			els := mkElems(o.elems)
+		case 'M':
+			if o.tag < len(ctx.pool) && o.elemJ < len(ctx.pool[o.tag]) {
+				setElem(ctx.pool[o.tag][o.elemJ], o.val)
+			}
+		case 'G':
+			for _, r := range s.GetRecords() {
+				func() {
+					defer func() { recover() }()
+					r.GetBuffer()
+				}()
+			}
+		case 'A', 'S':
+			var els []entities.InfoElementWithValue
+			if o.kind == 'S' {
+				if o.tag >= len(ctx.pool) {
+					return "ok"
+				}
+				els = ctx.pool[o.tag]
+			} else {
+				els = mkElems(o.elems)
+				lastEls = els
+			}
 			form, extra := o.form, o.extra
 			if forceForm != "" {
 				form, extra = forceForm, 3
